@@ -120,6 +120,12 @@ class EnumMember:
         return f'{self.cls.name}.{self.name}'
 
 
+class GenResult(list):
+    """Values produced by a generator function (evaluated eagerly)."""
+
+    context_manager = False
+
+
 class ReturnSignal(Exception):
     def __init__(self, value):
         self.value = value
@@ -183,6 +189,8 @@ class Interp:
         self.objects: dict[int, SVar] = {}
         self._decided: dict = {}
         self.concrete_enums = False
+        self._gen_stack: list = []
+        self.steps = 0
         self.stubs: dict = {}  # FuncInfo.fq -> callable(interp, args, kwargs, bound): replaces a repository function
         self.yielded: list = []
         self._enum_cache: dict = {}
@@ -301,12 +309,19 @@ class Interp:
             raise RaiseSignal('TypeError', node, f'{fi.file}:{fi.qualname}: unexpected keyword arguments {list(kwargs)}')
         self.depth += 1
         self.call_stack.append(fi)
+        gen = _is_generator(node)
+        if gen:
+            collector = GenResult()
+            collector.context_manager = any(d.split('.')[-1] == 'contextmanager' for d in decs)
+            self._gen_stack.append(collector)
         try:
             self.exec_body(node.body, env, mi)
-            return None
+            return collector if gen else None
         except ReturnSignal as r:
-            return r.value
+            return collector if gen else r.value
         finally:
+            if gen:
+                self._gen_stack.pop()
             self.depth -= 1
             self.call_stack.pop()
 
@@ -316,7 +331,12 @@ class Interp:
         for st in body:
             self.exec_stmt(st, env, mi)
 
+    MAX_STEPS = 20_000_000
+
     def exec_stmt(self, st, env, mi):
+        self.steps += 1
+        if self.steps > self.MAX_STEPS:
+            raise AnalysisError(f'interpretation exceeds {self.MAX_STEPS} statements (non-terminating loop?) at {self.where(st)}')
         m = getattr(self, 'st_' + type(st).__name__, None)
         if m is None:
             raise AnalysisError(f'statement {type(st).__name__} outside the analysable subset at {self.where(st)}')
@@ -588,6 +608,8 @@ class Interp:
     def st_With(self, st, env, mi):
         for item in st.items:
             v = self.eval(item.context_expr, env, mi)
+            if isinstance(v, GenResult) and v.context_manager:
+                v = v[0] if v else None
             if item.optional_vars is not None:
                 self.assign(item.optional_vars, v, env, mi)
         self.exec_body(st.body, env, mi)
@@ -653,7 +675,16 @@ class Interp:
         return None
 
     def ex_Yield(self, e, env, mi):
-        self.yielded.append(self.eval(e.value, env, mi) if e.value is not None else None)
+        v = self.eval(e.value, env, mi) if e.value is not None else None
+        self.yielded.append(v)
+        if self._gen_stack:
+            self._gen_stack[-1].append(v)
+        return None
+
+    def ex_YieldFrom(self, e, env, mi):
+        vals = self.iterate(self.eval(e.value, env, mi), e)
+        if self._gen_stack:
+            self._gen_stack[-1].extend(vals)
         return None
 
     def st_FunctionDef(self, st, env, mi):
@@ -677,7 +708,9 @@ class Interp:
         return bool(v)
 
     def iterate(self, v, node) -> list:
-        if isinstance(v, list | tuple | set | frozenset | range | dict | str):
+        if isinstance(v, range):
+            return v  # lazily: a range read from corrupt data may be astronomically long
+        if isinstance(v, list | tuple | set | frozenset | dict | str):
             return list(v)
         if isinstance(v, type({}.keys()) | type({}.values()) | type({}.items())):
             return list(v)
@@ -731,6 +764,9 @@ class Interp:
     # ------------------------------------------------------------------
     # expressions
     def eval(self, e, env, mi):
+        self.steps += 1
+        if self.steps > self.MAX_STEPS:
+            raise AnalysisError(f'interpretation exceeds {self.MAX_STEPS} steps (non-terminating loop?) at {self.where(e)}')
         m = getattr(self, 'ex_' + type(e).__name__, None)
         if m is None:
             raise AnalysisError(f'expression {type(e).__name__} outside the analysable subset at {self.where(e)}')
@@ -977,6 +1013,9 @@ class Interp:
             except (RaiseSignal, ReturnSignal, AnalysisError, PassThrough):
                 raise
             except Exception as ex:  # noqa: BLE001
+                if isinstance(fn.obj, str | bytes | int | float | list | dict | tuple | set) and isinstance(ex, ValueError | TypeError | KeyError | IndexError | OverflowError):
+                    # a method of a concrete builtin value fails the same way in the package
+                    raise RaiseSignal(type(ex).__name__, node, self.where(node), (str(ex),)) from None
                 raise AnalysisError(f'concrete call {fn.name} failed at {self.where(node)}: {ex}') from None
         if hasattr(fn, 'vp_call'):
             return fn.vp_call(self, args, kwargs, node)
@@ -1373,8 +1412,28 @@ _PY_BUILTINS = {
     'getattr', 'hasattr', 'type', 'super', 'object', 'ValueError', 'TypeError', 'KeyError',
     'RuntimeError', 'NotImplementedError', 'NotImplemented', 'print', 'frozenset', 'reversed',
     'map', 'filter', 'iter', 'next', 'repr', 'id', 'callable', 'Exception', 'IndexError',
-    'AttributeError', 'divmod', 'pow', 'slice', 'complex', 'bytes', 'open',
+    'AttributeError', 'divmod', 'pow', 'slice', 'complex', 'bytes', 'open', 'UserWarning', 'DeprecationWarning',
+    'RuntimeWarning', 'Warning', 'FutureWarning', 'OverflowError', 'ZeroDivisionError', 'StopIteration', 'LookupError',
+    'UnicodeDecodeError', 'UnicodeEncodeError', 'OSError', 'FileNotFoundError', 'memoryview', 'bytearray', 'chr', 'ord', 'hash', 'format',
 }
+
+
+_GEN_CACHE: dict = {}
+
+
+def _is_generator(fn_node) -> bool:
+    k = id(fn_node)
+    if k not in _GEN_CACHE:
+        found = False
+        stack = list(fn_node.body)
+        while stack and not found:
+            n = stack.pop()
+            if isinstance(n, ast.Yield | ast.YieldFrom):
+                found = True
+            elif not isinstance(n, ast.FunctionDef | ast.AsyncFunctionDef | ast.Lambda | ast.ClassDef):
+                stack.extend(ast.iter_child_nodes(n))
+        _GEN_CACHE[k] = found
+    return _GEN_CACHE[k]
 
 
 def _definite_view(obj: SVar, o: SVar) -> bool:
